@@ -144,6 +144,15 @@ def run(ctx):
     if core_broken:
         ob_failed.append("model/checker files do not compile: %s\n%s" % (core_broken, log[-1500:]))
 
+    # coq/g05/Ip.v is a copy of C04's net.ParseIP transcription
+    try:
+        a = open(os.path.join(common.VERIF, "coq", "g04", "Ip.v")).read()
+        b5 = open(os.path.join(common.VERIF, "coq", "g05", "Ip.v")).read().split("\n", 1)[1]
+        if a != b5:
+            ctx.notes.append("coq/g05/Ip.v differs from coq/g04/Ip.v (C04 changed its IP parser model; refresh the copy)")
+    except OSError:
+        pass
+
     hb, hlog = ctx.build_harness("c05")
     meta, model_bad, prop_bad = {}, [], []
     if hb is None:
